@@ -63,6 +63,32 @@ def run_with_scenarios(mod, ctx):
         ctx.notes["alternative_scenarios_not_analysable"] = skipped[:10]
 
 
+def run_selftest(prop, ctx):
+    """Thorough tier: test the checker both ways on scratch copies (selftest/variants.py; C07/C17 have an additional set).
+    A variant that is not handled as expected makes the run an ANALYSIS-ERROR (the checker, not the repository, is broken)."""
+    import subprocess
+    signal_alarm_off()
+    cmds = [[sys.executable, os.path.join(VERIF, "selftest", "run.py"), prop, "--jobs", str(max(1, ctx.jobs))]]
+    if prop in ("C07", "C17"):
+        cmds.append([sys.executable, os.path.join(VERIF, "selftest", "mut_c07_c17.py"), prop])
+    total = 0
+    for cmd in cmds:
+        p = subprocess.run(cmd, capture_output=True, text=True, cwd=VERIF, env=dict(os.environ, VERIF_NO_SELFTEST="1"))
+        lines = [l for l in p.stdout.splitlines() if l.startswith("SELFTEST") or "variants" in l or "problems" in l]
+        for l in lines[-3:]:
+            print(l)
+        total += sum(1 for l in p.stdout.splitlines() if l.startswith("SELFTEST ") and "summary" not in l)
+        if p.returncode != 0:
+            bad = [l for l in p.stdout.splitlines() if "UNEXPECTED" in l or "PROBLEM" in l.upper()]
+            raise AnalysisError(f"checker self-test failed for {prop}: " + "; ".join(bad[:3]) + (p.stderr[-300:] if not bad else ""))
+    ctx.notes["selftest_variants_run"] = total
+
+
+def signal_alarm_off():
+    import signal
+    signal.alarm(0)
+
+
 def _alt_label(alt):
     if alt[0] == "force":
         rel, line, col = alt[1]
@@ -108,6 +134,8 @@ def main(argv=None):
                 return 2
             raise
         run_with_scenarios(mod, ctx)
+        if a.tier == "thorough" and os.path.abspath(a.root) == "/repo" and not a.replay and not os.environ.get("VERIF_NO_SELFTEST"):
+            run_selftest(prop, ctx)
         write = not a.no_evidence
         if a.replay:
             want = json.load(open(a.replay))
